@@ -188,7 +188,7 @@ func c16Walk(st *vk.SliceStore, mdl *c16Model) string {
 func runC16(c *vk.Ctx) {
 	c.R.Rule = "cases = operation histories (Set / Increase / Decrease / re-Set to zero, and in class B also Remove) over keys from a 2-4 letter alphabet (shared prefixes, empty key, re-insertion) at fan-out m ∈ {3..12, 32, 255}; after every operation a seed-chosen subset of Get / PrefixSum / SubsetAccumulation / SplitAcc / TotalAccumulatedValue / forward+reverse iteration is compared with a sorted map, and every 8 operations the raw store is walked (stored child sums vs actual subtree sums, children = nodes of the level below). distinct_nontrivial counts distinct (class, fan-out, tree height, op kind, query kind) tuples observed."
 	fanouts := []uint8{3, 4, 5, 6, 7, 8, 9, 10, 11, 12, 32, 255, 10, 10}
-	nHist := c.N(2400, 80000)
+	nHist := c.N(6000, 80000)
 	opsPer := c.N(300, 600)
 	c.Cases("history", nHist, func(i int, r *vk.Rng) {
 		classB := i%10 == 9
